@@ -84,10 +84,13 @@ Definition hash_key_ok (k : obj) : bool :=
 Fixpoint keys_distinct (ks : list obj) : bool :=
   match ks with [] => true | k :: r => negb (existsb (obj_eqb k) r) && keys_distinct r end.
 
+(* a lambda-list element: a parameter name (or &optional, &key, ...), or (name default) where the default is a FORM
+   (any code tree: it is stored unevaluated and evaluated at call time), written as it is by FuncDoc.LoadForm,
+   FuncInfo.LoadForm and Dynamic.LoadForm; (name nil) is the same as name *)
 Definition ll_elem_ok (a : obj) : bool :=
   match a with
   | Sym s => plain_sym s
-  | L [Sym s; d] => plain_sym s && negb (obj_eqb d Nil) && self_evaluating d
+  | L [Sym s; d] => plain_sym s && negb (obj_eqb d Nil)
   | _ => false
   end.
 
@@ -127,6 +130,7 @@ Fixpoint loadable_in (v : obj) : bool :=
                          && self_evaluating (snd kv)) kvs  (* [C19-hash-values-unevaluated] *)
       && keys_distinct (map fst kvs)
   | Lam ll doc body => lam_ok ll doc body && (doc =? "")
+  | Inst _ _ | Flv _ _ _ _ _ _ => false     (* instances and flavors: as values of session variables, Session.v *)
   | Opaque _ => false
   end.
 
